@@ -1,11 +1,11 @@
 SPECIFICATION Spec
 CONSTANTS
-  Cases <- ImplCases
+  Cases <- SeqCases
   Expand <- McExpand
   Esc = "escape"
-  Header = "afterlast"
+  Header = "first"
   Merge = "grid"
-  Sep = "each"
+  Sep = "once"
   MaxSpecial = 1
   FullCells = 0
 INVARIANTS RoundTrip
